@@ -10,8 +10,15 @@ Every line is parsed into one `Req ℚ` and answered with `Req.run` (a function 
   cMo <v> <bf> <bt> <uf> <ut> <op>*        c_material with a Material object described by its history of
                                            operations  K:<key>:<v> (constructor keyword)  S:<key>:<v|~> (setter)
   mG <key> <op>*                           Material.get_prop(key)  ->  ok <v> | ok ~ | err param
+Requests that state a temperature (`Model/UnitsThermo.lean`, `TReq.run`): the adsorbate is a finite table
+  <tbl> = <n> (<T> <psat> <gasDensity> <liquidDensity> <molarMass> <gasMolarDensity> <liquidMolarDensity>)*n      (`~` = no value)
+and the constants are the entry whose key EQUALS the stated temperature (no entry: nothing can be calculated)
+  tP <tbl> <T> <v> <mf> <mt> <uf> <ut>                                    c_pressure(..., adsorbate, temp=T)
+  tL <tbl> <matDensity> <matMolarMass> <T> <v> <bf> <bt> <uf> <ut> <bm> <um>   c_loading(..., adsorbate, temp=T, bm, um)
+  tS <tbl> <T> <unit>                                                     adsorbate.saturation_pressure(T, unit)
+  tQ <tbl> <T> <gas_density|liquid_density|molar_mass|gas_molar_density|liquid_molar_density>     the accessor at T
 -/
-import PgVerif.Model.UnitsObj
+import PgVerif.Model.UnitsThermo
 import PgVerif.Drv.Proto
 import Mathlib.Algebra.Order.Field.Rat
 
@@ -64,8 +71,58 @@ def parseReq (ts : List String) : Option (Req ℚ) :=
     pure (.materialObj ops v (optStr bf) (optStr bt) (optStr uf) (optStr ut))
   | _ => none
 
+def parsePoint (l : List String) : Option (ℚ × ThermoPoint ℚ) :=
+  match l with
+  | [t, a, b, c, d, e, f] => do
+    let t ← parseRat t
+    let a ← optRat a; let b ← optRat b; let c ← optRat c; let d ← optRat d; let e ← optRat e; let f ← optRat f
+    pure (t, ⟨a, b, c, d, e, f⟩)
+  | _ => none
+
+def parsePoints : Nat → List String → Option (List (ℚ × ThermoPoint ℚ) × List String)
+  | 0, ts => some ([], ts)
+  | n + 1, ts =>
+    if ts.length < 7 then none else do
+      let p ← parsePoint (ts.take 7)
+      let (ps, rest) ← parsePoints n (ts.drop 7)
+      pure (p :: ps, rest)
+
+def parseQty (t : String) : Option Qty :=
+  match t with
+  | "gas_density" => some .gasDensity | "liquid_density" => some .liquidDensity | "molar_mass" => some .molarMass
+  | "gas_molar_density" => some .gasMolarDensity | "liquid_molar_density" => some .liquidMolarDensity
+  | _ => none
+
+/-- a request that states a temperature, with the table it is asked of -/
+def parseTReq (op : String) (ts : List String) : Option (Thermo ℚ × TReq ℚ) :=
+  match ts with
+  | n :: ts => do
+    let n ← n.toNat?
+    let (tbl, rest) ← parsePoints n ts
+    let B := Thermo.ofTable tbl
+    match op, rest with
+    | "tP", [t, v, mf, mt, uf, ut] => do
+      let t ← parseRat t; let v ← parseRat v
+      pure (B, .pressure t v (optStr mf) (optStr mt) (optStr uf) (optStr ut))
+    | "tL", [md, mm, t, v, bf, bt, uf, ut, bm, um] => do
+      let md ← optRat md; let mm ← optRat mm; let t ← parseRat t; let v ← parseRat v
+      let mat : Env ℚ := fun q => match q with | .matDensity => md | .matMolarMass => mm | _ => none
+      pure (B, .loading t mat v (optStr bf) (optStr bt) (optStr uf) (optStr ut) (optStr bm) (optStr um))
+    | "tS", [t, u] => do
+      let t ← parseRat t
+      pure (B, .satp t (optStr u))
+    | "tQ", [t, q] => do
+      let t ← parseRat t; let q ← parseQty q
+      pure (B, .quantity t q)
+    | _, _ => none
+  | _ => none
+
 def step (ts : List String) : String :=
   match ts with
+  | "tP" :: r | "tL" :: r | "tS" :: r | "tQ" :: r =>
+    match parseTReq (ts.headD "") r with
+    | some (B, q) => showRes (q.run B)
+    | none => "bad-op"
   | "mG" :: k :: ops =>
     match ops.mapM parseOp with
     | some ops =>
